@@ -5,8 +5,9 @@ COMP_TB = ["coq/Model/Comp.v: hand-written mirror of Component::parse_comp (inli
            "run; coq/Check/CheckComp.v: the tree equivalence (normal forms) and the D14 / D28 input classes",
            "harness/src/bin/comp.rs: decoding of input and output into section trees (items = hash-consed raw bytes; imports/exports = "
            "hash-consed parsed form; modules = hash-consed wasmprinter text), the dump of the real parse_all payload sequence, and the "
-           "D28 table (component-type item |-> the same item with nested payload-less streams turned into futures, re-encoded with "
-           "wasm-encoder's RoundtripReencoder)"]
+           "re-encoding table (component-type item |-> the item as wrappers.rs re-encodes it: wasm-encoder's RoundtripReencoder with exactly "
+           "the deviating arms overridden -- D28 nested payload-less stream -> future, D29 explicit core rec group in an instance type "
+           "-> separate types -- listed only where the result differs)"]
 
 PROPS = {
     "C27": dict(
@@ -21,13 +22,15 @@ PROPS = {
              "position): core modules (generated, with optional name/custom/data sections), nested components down to component depth 3 "
              "with a module one level deeper (depth <= 4), core instances, instances, aliases (core export, instance export, outer "
              "type/module/component), component/instance/function/defined/resource types incl. nested declarations with payload-less "
-             "stream/future, core types, canonical functions (lift, lower, resource.drop, stream/future/async builtins), imports, exports, "
+             "stream/future and explicit core rec groups, core types, canonical functions (lift, lower, resource.drop, stream/future/async builtins), imports, exports, "
              "custom sections, start; only inputs accepted by wasmparser::Validator (all features) are kept; plus every component found "
-             "under /repo/tests (*.wasm, *.wat and the top-level (component ...) forms of *.wast, assembled with wat 1.259) and 8 "
-             "hand-written witnesses; non-trivial = depth >= 1 and >= 3 sections; distinct by hash of the case term",
+             "under /repo/tests (*.wasm, *.wat and the top-level (component ...) forms of *.wast, assembled with wat 1.259) and 11 "
+             "hand-written witnesses; one third of the deep trees are 'chain' shaped (every level's only nested body is its last section) so "
+             "that the positive theorem is sampled at depth 3 and 4 too; non-trivial = depth >= 1 and >= 3 sections; distinct by hash of the case term",
         level_text="Proof (Coq, every section tree: unbounded width, arbitrary interleavings, ANY nesting depth) that outside the input "
-                   "classes D14 (a nested component whose bodies at depth >= 2 outnumber its closing chain: deep > chain) and D28 "
-                   "(payload-less stream inside a nested type declaration) the model of parse_comp + encode_comp returns exactly the normal "
+                   "classes D14 (a nested component whose bodies at depth >= 2 outnumber its closing chain: deep > chain) and D28 / D29 "
+                   "(a component-type item that wrappers.rs re-encodes differently: payload-less stream inside a nested type declaration, "
+                   "explicit core rec group inside an instance type) the model of parse_comp + encode_comp returns exactly the normal "
                    "form of the input tree, hence a tree equivalent to the input; corollary for depth <= 2; vm_compute refutations of the "
                    "unrestricted statement (content duplicated into an ancestor; encode panic; stream -> future). The model is tied to "
                    "/repo's working tree by differential evaluation inside Coq on generated components and the repository's fixtures "
@@ -43,7 +46,7 @@ PROPS = {
         design_ref="5/C27",
         trusted_base=COMP_TB,
         modelled="Component::parse_comp (stack / parent_stack / add_to_sections / name section handling), Component::encode_comp (section replay, "
-                 "start assert, name section); wrappers.rs::convert_component_type only through the per-case D28 table",
+                 "start assert, name section); wrappers.rs::convert_component_type / convert_instance_type only through the per-case re-encoding table",
         assumptions=["'same sections / same contents' is read up to framing: how a run of items of one kind is split into sections, the position "
                      "of the component-name section and the order of its subsections, the always-added (possibly empty) component-name "
                      "section, an added empty name section inside core modules, and the two binary spellings (0x00 / legacy 0x01) of an "
